@@ -12,7 +12,7 @@ RULE = (
     'bursts (queue/backlog limits) incl. events nobody handles and re-dispatch of rejected event objects, small-N '
     'evictions, recursion-guard trips (self-recursion to depth 4). Oracle: when '
     'a timeout-less call returns, every event accepted by the bus before that instant has left its handler and none is '
-    'queued (harness bookkeeping); every call returns within 5 virtual seconds after the harness sees quiescence. '
+    'queued (harness bookkeeping, and the public queue size is 0); every call returns within 5 virtual seconds after the harness sees quiescence. '
     'Non-trivial = a call was made while the bus was busy; distinct by canonical JSON.'
 )
 ASSUMPTIONS = ['virtual time; liveness as bounded safety', 'one bus; handlers do not outlive their invocation']
@@ -29,6 +29,7 @@ op = st.one_of(
     st.sampled_from([(0.05, 0.07), (0.11, 0.15), (0.09, 0.13)]).flatmap(lambda dt: st.tuples(st.just('burst'), st.integers(1, 2), st.just(dt[0]), st.integers(1, 2), st.just(True), st.booleans(), st.just(dt[1])).map(list)),
     st.tuples(st.just('burstnh'), st.sampled_from([1, 3, 51, 101])).map(list),
     st.tuples(st.just('retry'), st.sampled_from([1, 3, 60])).map(list),
+    st.tuples(st.just('again'), st.sampled_from([1, 2])).map(list),
 )
 scs = st.fixed_dictionaries({'N': st.sampled_from([None, 50, 50, 2, 3]), 'maxdepth': st.sampled_from([2, 2, 2, 4]), 'ops': st.lists(op, min_size=2, max_size=8), 'cap': st.just(400)})
 
